@@ -168,7 +168,9 @@ def optres_root(du, pk, depth=0):
     ap = place_key(a)
     aty = du.fn.local_ty(ap[0]) if not ap[1] else ""
     inner = (ap[0], ap[1] + ("*",)) if aty.startswith("&") else ap
-    if name in SAME_VARIANT or name == "std::result::Result::<T, E>::ok":
+    if name in SAME_VARIANT or name == "std::result::Result::<T, E>::ok" or name.endswith("as std::ops::Try>::branch") \
+            or name in ("std::option::Option::<T>::ok_or", "std::option::Option::<T>::ok_or_else"):
+        # `x?` continues exactly when x is Ok / Some; ok_or(_else) maps Some -> Ok, None -> Err
         return optres_root(du, inner, depth + 1)
     if name == "std::result::Result::<T, E>::err":
         r, inv = optres_root(du, inner, depth + 1)
@@ -232,6 +234,8 @@ class Guards:
             names = {0: ("Succ", False), 1: ("Succ", True)}
         elif ty.startswith("std::result::Result<"):
             names = {0: ("Succ", True), 1: ("Succ", False)}
+        elif ty.startswith("std::ops::ControlFlow<"):
+            names = {0: ("Succ", True), 1: ("Succ", False)}       # Continue / Break of `x?`
         else:
             return
         if inv:
